@@ -179,6 +179,10 @@ func gen(f vh.Flags, r *vrand.R, emit func(In)) {
 			return nil
 		}
 		b := edgeFloatBits(r)
+		if r.Chance(1, 10) {
+			// the infinities and the largest finite values: where "exclusive" must still exclude
+			b = vrand.Pick(r, []uint64{0x7ff0000000000000, 0xfff0000000000000, 0x7fefffffffffffff, 0xffefffffffffffff})
+		}
 		return &b
 	}
 	nc := f.N(250, 20000)
@@ -205,6 +209,9 @@ func gen(f vh.Flags, r *vrand.R, emit func(In)) {
 		pool := make([]uint64, r.Range(2, 6))
 		for i := range pool {
 			pool[i] = edgeFloatBits(r)
+			if r.Chance(1, 12) {
+				pool[i] = vrand.Pick(r, []uint64{0x7ff0000000000000, 0xfff0000000000000, 0x7fefffffffffffff, 0xffefffffffffffff})
+			}
 		}
 		docs := make([][]uint64, nd)
 		for i := range docs {
@@ -247,6 +254,12 @@ func gen(f vh.Flags, r *vrand.R, emit func(In)) {
 		base := int64(r.Range(-3, 3)) * 1_000_000_000
 		if r.Chance(1, 4) {
 			base = r.I64() >> uint(r.Range(2, 30))
+		}
+		if r.Chance(1, 4) {
+			// the ends of the representable range (years 1677..1714 and 2225..2262): the top 1/16th of
+			// the sortable space, where the float view of the timestamp is a NaN bit pattern or huge
+			base = vrand.Pick(r, []int64{math.MaxInt64 - 40e15, math.MaxInt64 - 3e18/4, math.MinInt64 + 40e15, math.MinInt64 + 3e18/4, 9_205_000_000_000_000_000, -9_205_000_000_000_000_000}) +
+				int64(r.Range(-5, 5))*1_000_000_000_000
 		}
 		pt := func() int64 {
 			switch r.Intn(4) {
